@@ -232,8 +232,14 @@ def shrink_case(stream, case, still_bad, rounds=40):
     if stream.shrink is None:
         return case
     cur = case
+    t_end = time.time() + float(os.environ.get("VERIF_SHRINK_BUDGET_S", "90"))
     for _ in range(rounds):
+        if time.time() > t_end:
+            break  # very large cases (e.g. a burst of >1000 requests): report what we have
         cands = [c for c in stream.shrink(cur) if c != cur]
+        # each round evaluates every candidate: keep a round affordable for huge cases
+        if len(cands) > 400:
+            cands = cands[:: max(1, len(cands) // 400)]
         if not cands:
             break
         flags = still_bad(cands)
@@ -372,7 +378,8 @@ def run_property(pid, cfg, tier, seed, replay=None):
 
             def still2(cands):
                 ii, mm, oo = evaluate(s, cands)
-                return [a != b for a, b in zip(ii, mm)]
+                # a candidate that is no longer a well-formed case (either side says so) is not a smaller witness
+                return [a != b and "bad-case" not in a and "bad-case" not in b for a, b in zip(ii, mm)]
 
             small = shrink_case(s, c, still2)
             ii, mm, oo = evaluate(s, [small])
